@@ -83,6 +83,7 @@ type c19Sys struct {
 	reloads bool
 	cfg     *config.PikeConfig
 	mask    int
+	byName  bool // servers configured as localhost:port
 }
 
 func (s *c19Sys) NumEvents() int { return 3*s.n + 3 }
@@ -147,7 +148,11 @@ func (s *c19Sys) Reset() {
 			panic(err)
 		}
 		s.origins = append(s.origins, o)
-		servers = append(servers, config.UpstreamServerConfig{Addr: "http://" + o.addr, Backup: s.backup&(1<<uint(i)) != 0})
+		caddr := o.addr
+		if s.byName { // the servers are configured by host name (one name, different ports), as on a single backend machine
+			caddr = strings.Replace(caddr, "127.0.0.1", "localhost", 1)
+		}
+		servers = append(servers, config.UpstreamServerConfig{Addr: "http://" + caddr, Backup: s.backup&(1<<uint(i)) != 0})
 	}
 	cfg := &config.PikeConfig{
 		Caches:    []config.CacheConfig{{Name: "c1", Size: 100, HitForPass: "5m"}},
@@ -311,6 +316,63 @@ func (s *c19Sys) Apply(ev int) (string, string, string) {
 	return s.Key() + fmt.Sprint(counts), "", ""
 }
 
+// c19ReloadNoHealthy: the pool's only server refuses connections (nothing is healthy); a reload of the unchanged
+// configuration (which health-checks the new pool: a network exchange with every server) races a request. The request
+// gets its 5xx promptly: it is never parked on a lock whose holder is inside a health check.
+func c19ReloadNoHealthy(c *Ctx, name string, b vsched.Bounds) Sched {
+	var cfg *config.PikeConfig
+	var e *env.Env
+	return Sched{
+		Name:   name,
+		Opt:    vsched.Options{TolerateDivergence: true, RecordBlocked: true},
+		Bounds: b,
+		Setup: func() ([]func(), func(*vsched.Exec) *vsched.Violation, func() string) {
+			vsched.IOPoints = true
+			if cfg == nil {
+				dead := freeAddrs(1)[0] // nobody listens here
+				cfg = &config.PikeConfig{
+					Caches:    []config.CacheConfig{{Name: "c1", Size: 100, HitForPass: "5m"}},
+					Upstreams: []config.UpstreamConfig{{Name: "u", Servers: []config.UpstreamServerConfig{{Addr: "http://" + dead}}}},
+					Locations: []config.LocationConfig{{Name: "l", Upstream: "u"}},
+					Servers:   []config.ServerConfig{{Addr: "127.0.0.1:0", Locations: []string{"l"}, Cache: "c1"}},
+				}
+				env.Silence()
+				e = &env.Env{}
+				procEnv = nil
+			}
+			env.FreshAll()
+			env.Apply(cfg)
+			e.RebindServersOnly()
+			var res *env.Result
+			bodies := []func(){
+				func() { res = e.Do(env.Req{Method: "POST", URI: "/x", Rid: "t0"}) },
+				func() { _ = env.Apply(cfg) },
+			}
+			check := func(x *vsched.Exec) *vsched.Violation {
+				e.Events()
+				if x.Deadlock || x.Livelock || len(x.Panics) > 0 || res == nil {
+					return nil
+				}
+				if res.Status < 500 {
+					return &vsched.Violation{Sig: "no-healthy-server-but-not-5xx", Msg: fmt.Sprintf("the only server refuses connections, the request was answered %d %q", res.Status, trunc(res.Body))}
+				}
+				for _, bo := range x.BlockedAt {
+					if bo.Tid == 0 && bo.Owner == 1 && bo.OwnerOp == vsched.OpYield && bo.OwnerRes == 77 {
+						return &vsched.Violation{Sig: "error-answer-waits-for-health-checks-of-a-reload", Msg: "no server is healthy and a reload is in progress: the request is parked on a lock held by the reload, which is inside the health check of the new pool (a network exchange with every server, up to 3 s each): the 5xx is not prompt"}
+					}
+				}
+				return nil
+			}
+			return bodies, check, func() string {
+				if res == nil {
+					return "nil"
+				}
+				return fmt.Sprint(res.Status)
+			}
+		},
+	}
+}
+
 func init() {
 	Register("C19", func(c *Ctx) {
 		c.Out.Rule = "BFS over up/down toggle sequences (depth 4, states = liveness vectors) of 1..3 (quick) / 1..4 (thorough; n=4 with 3 masks in quick) real loopback origins x every primary/backup mask x policies {roundRobin, first, random, leastconn} x health mode {TCP, HTTP ping}; after every toggle an explicit health check (settle) and 3n sequential requests through pike's real proxy: only healthy servers, backups only when no primary is healthy, round-robin counts differ by <=1, all down => 5xx, recovery resumes traffic"
@@ -319,6 +381,8 @@ func init() {
 		// a reload of the unchanged configuration racing two requests (real loopback origin, every bounded schedule;
 		// the synchronous health check is a scheduling point): a healthy server must stay reachable throughout
 		c.RunSched(c16Conc(c, "reload-vs-requests", vsched.Bounds{Preempt: 2, Tick: 0, Data: -1, Total: -1}))
+		procEnv = nil
+		c.RunSched(c19ReloadNoHealthy(c, "reload-vs-request-no-healthy-server", vsched.Bounds{Preempt: 2, Tick: 0, Data: -1, Total: -1}))
 		procEnv = nil
 		var idx int64
 		c.NoMergeCap = 400
@@ -359,6 +423,23 @@ func init() {
 					}
 				}
 			}
+		}
+		// the same machines configured by host name: one name, different ports
+		for _, hc := range []struct {
+			n, mask int
+			pol     string
+		}{{2, 0, "roundRobin"}, {3, 0, "roundRobin"}, {2, 2, "first"}, {3, 4, "roundRobin"}} {
+			idx++
+			if !c.Mine(idx) {
+				continue
+			}
+			name := fmt.Sprintf("n%d-backupmask%d-%s-by-host-name", hc.n, hc.mask, hc.pol)
+			sys := &c19Sys{n: hc.n, backup: hc.mask, policy: hc.pol, label: name, shard: c.Shard, byName: true}
+			saveS, saveN := c.Shard, c.NShards
+			c.Shard, c.NShards = 0, 1
+			c.runBFS(name, sys, 3, nil)
+			c.Shard, c.NShards = saveS, saveN
+			sys.closeAll()
 		}
 		procEnv = nil
 	})
